@@ -1,8 +1,24 @@
-use scrypto_test::prelude::*;
+//! Ledger-level checks that run the shared W-LEDGER workload with all global monitors armed.
+//! Each property id selects the scenario mix that stresses its mechanism and the floors that
+//! make a thin run inconclusive; a violation of any other property found on the way is reported
+//! under that property's id and fails the run as well.
+use rv_common::*;
+use rv_ledger::actions::World;
+use std::time::Duration;
+
+mod mix;
+
 fn main() {
-    let args = rv_common::parse_args();
-    let mut ledger = LedgerSimulatorBuilder::new().build();
-    let (_pk, _sk, account) = ledger.new_allocated_account();
-    eprintln!("no check named {} (account {:?})", args.prop, account);
-    std::process::exit(2);
+    let args = parse_args();
+    let code = match args.prop.as_str() {
+        "C02" | "C03" | "C04" | "C05" | "C06" | "C11" | "C43" | "C44" | "C49" | "C51" => mix::run(&args),
+        other => {
+            eprintln!("rv-engine: no check named {other}");
+            2
+        }
+    };
+    std::process::exit(code);
 }
+
+#[allow(dead_code)]
+fn unused(_: Duration, _: Option<World>) {}
